@@ -89,6 +89,8 @@ mod roaring;
 mod spaces;
 mod stats;
 pub mod upgrade;
+#[cfg(arroy_verif)]
+pub mod verif;
 mod version;
 mod writer;
 
